@@ -166,6 +166,40 @@ func runC08(r *mc.Run) {
 				add(fmt.Sprintf("opt2/AnyMrTd[0]^bit%d^bit%d", b1, b2), raw0, o)
 			}
 		}
+		// long allowed lists: membership does not depend on how many entries there are, where the member is,
+		// or how the entries are ordered (counts around the thresholds an implementation might introduce)
+		for _, n := range []int{8, 9, 16, 17, 33, 64, 65, 129, 256, 257} {
+			poss := []int{-1, 0, 1, n / 2, n - 2, n - 1}
+			if n <= 17 {
+				poss = []int{-1}
+				for p := 0; p < n; p++ {
+					poss = append(poss, p)
+				}
+			}
+			for _, p := range poss {
+				for _, order := range []string{"ascending", "descending", "hashed"} {
+					o := &validate.Options{}
+					for i := 0; i < n; i++ {
+						var e []byte
+						switch order {
+						case "ascending":
+							e = bytes.Repeat([]byte{byte(i)}, 48)
+							e[0] = byte(i >> 8)
+						case "descending":
+							e = bytes.Repeat([]byte{byte(255 - i)}, 48)
+							e[0] = byte(255 - i>>8)
+						default:
+							e = world.Fill(fmt.Sprintf("c08-long-%d", i), 48)
+						}
+						if i == p {
+							e = append([]byte(nil), mr...)
+						}
+						o.TdQuoteBodyOptions.AnyMrTd = append(o.TdQuoteBodyOptions.AnyMrTd, e)
+					}
+					add(fmt.Sprintf("longlist/AnyMrTd/n=%d,member@%d,%s", n, p, order), raw0, o)
+				}
+			}
+		}
 		for k := 1; k < 48; k++ {
 			a := append(append([]byte{}, world.Fill("c08-straddle-a", k)...), mr[:48-k]...)
 			b := append(append([]byte{}, mr[48-k:]...), world.Fill("c08-straddle-b", 48-k)...)
